@@ -214,6 +214,11 @@ func (r *Run) Finish() {
 	cov["known_findings_seen"] = ks
 	// replays
 	os.MkdirAll(filepath.Join(Root, "replays"), 0o755)
+	if old, _ := filepath.Glob(filepath.Join(Root, "replays", fmt.Sprintf("%s-%s-*.json", r.Property, r.Tier))); old != nil {
+		for _, f := range old {
+			os.Remove(f)
+		}
+	}
 	for i := range r.violations {
 		v := &r.violations[i]
 		p := filepath.Join(Root, "replays", fmt.Sprintf("%s-%s-%04d.json", r.Property, r.Tier, i+1))
